@@ -18,7 +18,7 @@ RULE = ("worlds as C07 but estimator and uninterrupted charging off, unequal vol
         "inconclusive; non-trivial = call with >=2 constraints binding and >=3 active sessions; distinct = history signature")
 PROBES = ["greedy_call_checked", "rr_call_checked", "uncontrolled_call_checked", "tie_inconclusive", "guard_inconclusive",
           "bisection_used", "ub_granted", "finite_level_lowered", "two_constraints_binding", "eps_probe", "order_matters",
-          "rr_blocked_session", "call_after_reconfig", "uninterrupted_call", "min_pilot_refused", "direct_schedule_call_shared_bounds", "direct_schedule_call_edited_energy", "near_tie_world", "estimator_call", "allocation_routine_called_with_a_kept_infrastructure_description"]
+          "rr_blocked_session", "call_after_reconfig", "uninterrupted_call", "min_pilot_refused", "direct_schedule_call_shared_bounds", "direct_schedule_call_edited_energy", "near_tie_world", "estimator_call", "allocation_routine_called_with_a_kept_infrastructure_description", "algorithm_retuned_mid_run"]
 FAULT_DIMENSION = ("environment fault only: the operator changes a constraint limit between two periods of the run "
                    "(ChargingNetwork.update_constraint); otherwise reached-state distribution")
 ASSUMPTIONS = ["priority keys pairwise distinct (else the call is inconclusive)",
@@ -40,6 +40,11 @@ def gen(rs, tier):
     sc["network"]["relative_tolerance"] = 1e-7
     if sc["party"].get("estimator") == "stub" and (sc["party"]["kind"] != "greedy" or sc["party"].get("uninterrupted")):
         sc["party"]["estimator"] = "none"      # (rate estimates are modelled for the greedy algorithm without minimum pilots only)
+    rrt = world.sub(rs, "retune")
+    if sc["party"]["kind"] == "rr" and rrt.random() < 0.3:
+        # the operator changes the round-robin step (public attribute continuous_inc) while the run is under way
+        cur_ = sc["party"].get("continuous_inc", 1)
+        sc["party"]["retune"] = {"at_call": rrt.randint(2, 6), "set": {"continuous_inc": rrt.choice([x_ for x_ in (0.5, 1, 2, 3) if x_ != cur_])}}
     r = world.sub(rs, "near_tie")
     if sc["party"].get("sort") in ("llf", "lrpt") and r.random() < 0.3:
         # two sessions whose laxity / processing-time keys differ by a few 1e-4 periods when they first compete: distinct keys,
@@ -282,6 +287,7 @@ def check(sc):
     out.probes = dict(out.probes, **pre.probes)
     if sc.get("near_tie"):
         out.probe("near_tie_world")
+    out.probe("algorithm_retuned_mid_run", tr.fault_counts.get("algorithm_retuned", 0))
     completion(tr, out, "C08", required=False)
     period = sc["sim"]["period"]
     for c in tr.calls:
@@ -355,7 +361,7 @@ def check(sc):
                 if len(order) >= 2 and [x["arrival"] for x in order] != sorted(x["arrival"] for x in order):
                     out.probe("order_matters")
         else:
-            inc = p.get("continuous_inc", 1)
+            inc = c.get("opts", {}).get("continuous_inc", p.get("continuous_inc", 1))      # (the increment in force at that call)
             levels = {}
             incon = False
             for x in order:
